@@ -3,7 +3,7 @@ From Coq Require Extraction ExtrOcamlBasic.
 From GV Require Import Sym.Op Sym.Triplet Sym.Group Sym.SgLookup Sym.Asu Sym.SgTable_gen Sym.SgCheck.
 Extraction Blacklist String List Nat.
 Extraction "sym.ml"
-  op_mul combine inverse rot_type triplet parse_triplet apply_to_hkl apply_to_hkl_nodiv phase_shift_num
+  op_mul op_mul_checked combine inverse rot_type triplet parse_triplet apply_to_hkl apply_to_hkl_nodiv phase_shift_num
   mat_vec_raw symops_from_hall generators_from_hall all_ops_sorted find_centering order
   sg_table alt_table basisops ccp4_hkl_asu pg_index_and_category inversion_centers
   find_spacegroup_by_name find_spacegroup_by_number find_spacegroup_by_ops operations xhm
